@@ -43,6 +43,10 @@ type concReport struct {
 	Result     string   `json:"result"` // ok | not-linearizable | invariant | stuck | panic | lockset
 	Detail     string   `json:"detail,omitempty"`
 	History    []concOp `json:"history,omitempty"`
+	// pubsub scenarios: number of hook H2b events fed to the model's operation automaton (conc_pubsub_trace.go)
+	TraceEvents int64 `json:"trace_events,omitempty"`
+	// small pubsub scenarios: every goroutine's whole event sequence, judged again by the Lean automaton PSC.TA.ok (driver engine PST)
+	Traces map[string]string `json:"traces,omitempty"`
 }
 
 func runCmd(mgr *server.Manager, argv ...string) (out string, panicked bool) {
@@ -597,7 +601,11 @@ func runConc(args []string) {
 	for _, s := range strings.Split(args[2], ",") {
 		want[s] = true
 	}
-	memdb.VerifEventHook = locksetHook
+	memdb.VerifEventHook = func(kind string, cm *memdb.ConcurrentMap, key string, pos int) {
+		locksetHook(kind, cm, key, pos)
+		psMapHook(kind, cm, key)
+	}
+	memdb.VerifChanEventHook = psChanHook
 	enc := json.NewEncoder(os.Stdout)
 	for r := 0; r < rounds; r++ {
 		for _, sc := range scenarios {
@@ -632,6 +640,7 @@ func runConc(args []string) {
 		rr = 3
 	}
 	rearm(seed, rr, want, enc)
+	pubsubPaths(seed, want, enc)
 	pubsubConc(seed, rounds, want, enc)
 	ho := rounds
 	if ho > 2 && os.Getenv("VERIF_TIER") != "thorough" {
